@@ -22,6 +22,20 @@ open Generated
 def lookupRow {α : Type} (t : List (List Bool × α)) (fv : List Bool) : Option α :=
   (t.find? (fun r => r.1 == fv)).map (·.2)
 
+/-- C13 says "one dummy byte": its VALUE is the chip's don't-care (the crate sends 0x00, a rewrite
+    may send anything).  The two-byte transfer that opens an SPI read is compared up to that byte. -/
+def normRaw : Raw → Raw
+  | .spiTransfer [x, _] => .spiTransfer [x, 0#8]
+  | r => r
+
+/-- only the operation after the falling chip-select edge is the address + dummy transfer -/
+def normOps : List Raw → List Raw
+  | a :: b :: rest => a :: normRaw b :: rest
+  | l => l
+
+def normRows (t : List (List Bool × List Raw × Option (Bool × Nat))) : List (List Bool × List Raw × Option (Bool × Nat)) :=
+  t.map (fun r => (r.1, normOps r.2.1, r.2.2))
+
 def errShape (base : Nat) : Option Err → Option (Bool × Nat)
   | none => none
   | some (.io k) => some (false, k - base)
@@ -51,11 +65,11 @@ theorem frames_spi_write (fails : Nat → Bool) (w : World) (a : Nat) (v : Byte)
     simp [lookupRow, Frames.spi_write, shapeW, errShape, writeRegister, World.raw, h0, h1, h2]
 
 theorem frames_spi_read (fails : Nat → Bool) (w : World) (a n : Nat) :
-    lookupRow (Frames.spi_read 0 a n 0#8) [fails w.idx, fails (w.idx + 1), fails (w.idx + 2), fails (w.idx + 3)]
+    lookupRow (normRows (Frames.spi_read 0 a n 0#8)) [fails w.idx, fails (w.idx + 1), fails (w.idx + 2), fails (w.idx + 3)]
       = some (shapeR w.idx (readRegister .spi fails w a n)) := by
   cases h0 : fails w.idx <;> cases h1 : fails (w.idx + 1) <;> cases h2 : fails (w.idx + 2) <;>
     cases h3 : fails (w.idx + 3) <;>
-    simp [lookupRow, Frames.spi_read, shapeR, errShape, readRegister, World.raw, h0, h1, h2, h3]
+    simp [lookupRow, normRows, normOps, normRaw, Frames.spi_read, shapeR, errShape, readRegister, World.raw, h0, h1, h2, h3]
 
 /-! The read functions once more, for an EMPTY buffer (in the source `buffer.is_empty()` and
     `buffer.len() == 0` are then true): the same framing with a data phase of zero bytes - no
@@ -68,11 +82,11 @@ theorem frames_i2c_read_empty (dev : Nat) (fails : Nat → Bool) (w : World) (a 
     simp [lookupRow, Frames.i2c_read_empty, shapeR, errShape, readRegister, World.raw, h0]
 
 theorem frames_spi_read_empty (fails : Nat → Bool) (w : World) (a : Nat) :
-    lookupRow (Frames.spi_read_empty 0 a 0 0#8) [fails w.idx, fails (w.idx + 1), fails (w.idx + 2), fails (w.idx + 3)]
+    lookupRow (normRows (Frames.spi_read_empty 0 a 0 0#8)) [fails w.idx, fails (w.idx + 1), fails (w.idx + 2), fails (w.idx + 3)]
       = some (shapeR w.idx (readRegister .spi fails w a 0)) := by
   cases h0 : fails w.idx <;> cases h1 : fails (w.idx + 1) <;> cases h2 : fails (w.idx + 2) <;>
     cases h3 : fails (w.idx + 3) <;>
-    simp [lookupRow, Frames.spi_read_empty, shapeR, errShape, readRegister, World.raw, h0, h1, h2, h3]
+    simp [lookupRow, normRows, normOps, normRaw, Frames.spi_read_empty, shapeR, errShape, readRegister, World.raw, h0, h1, h2, h3]
 
 end Thm
 end Bma400
